@@ -11,7 +11,11 @@ Tie to the code:
           exactly the declared shape and a log-det of shape ();
       (b) every modelled constructor check against the real constructors on shape grids (negative / out-of-range
           axes, empty lists, rank mismatches), the reference jnp.concatenate / jnp.stack shape semantics against jnp,
-          slice arithmetic against Python's `slice.indices`;
+          slice arithmetic against Python's `slice.indices`; the SAME cases through the constructors REGENERATED from the
+          source (Gen/CtorsGen.lean by tools/py2lean/py2ctor.py, driver op `gc`): verdict, declared shape / cond_shape,
+          Concatenate's split_idxs and stored axis against the real objects and against the hand model; plus
+          EmbedCondition, Invert / Scan shape properties and Vmap (in_axes XOR axis_size, unwrappables in in_axes,
+          no mapped leaf, condition axis incl. negative / out of range);
       (c) the generated class table and the Lean MRO / attribute resolver against live introspection
           (`__mro__`, `__dict__`, `__wrapped__`) of every subclass reachable from `AbstractBijection.__subclasses__()`;
       (d) `log_prob` / `sample` / `sample_and_log_prob` of real distributions on batch / trailing-dimension lattices.
@@ -35,7 +39,7 @@ from flowjax.bijections.bijection import AbstractBijection
 import vlib
 
 ID = "C13"
-GEN = ["Structure", "ArgCheckGen"]
+GEN = ["Structure", "ArgCheckGen", "CtorsGen"]
 RULE = ("(a) zoo of real instances of every concrete bijection class (incl. the private _CallableToBijection / "
         "_UnconditionalPlanar, conditional and unconditional variants, shapes with size-1 axes, random generated "
         "compositions) x {transform, transform_and_log_det, inverse, inverse_and_log_det} x x-shape lattice (all 40 shapes "
@@ -471,14 +475,112 @@ def ctor_jobs(tier, rng):
             jobs.append(("scalar", f"ac scalar {sh(s)} {osh(cc)}", lambda t=t: B.Coupling(k, transformer=t(), untransformed_dim=1, dim=2, nn_width=2, nn_depth=1), lambda r: "ok", True, dict(ctor="Coupling", shape=s, cond=cc)))
             jobs.append(("scalar", f"ac scalar {sh(s)} {osh(cc)}", lambda t=t: B.MaskedAutoregressive(k, transformer=t(), dim=2, nn_width=2, nn_depth=1), lambda r: "ok", True, dict(ctor="MaskedAutoregressive", shape=s, cond=cc)))
             jobs.append(("scalar", f"ac scalar {sh(s)} {osh(cc)}", lambda t=t: B.BlockAutoregressiveNetwork(k, dim=2, depth=1, block_dim=2, activation=t()), lambda r: "ok", True, dict(ctor="BlockAutoregressiveNetwork", shape=s, cond=cc)))
+    # ---- EmbedCondition, Invert / Scan / Partial.cond_shape (hand model line `gc hembed` / none; generated `gc embed` / `gc wrap`)
+    for b in [(), (3,), (2, 3), (1,)]:
+        for bc in [None, (2,), (), (2, 2)]:
+            for raw in [(), (5,), (2, 1)]:
+                jobs.append(("embed", f"gc hembed {sh(b)} {osh(bc)} {sh(raw)}", lambda b=b, bc=bc, raw=raw: B.EmbedCondition(_mk(b, bc), lambda c_: c_, raw),
+                             pair_enc, False, dict(bshape=b, bcond=bc, raw=raw)))
+
+            def mk_w(b=b, bc=bc):
+                inner = _mk(b, bc)
+                part = B.Partial(inner, slice(None), b) if b else B.Invert(inner)
+                return B.Invert(inner), B.Scan(inner), part
+            jobs.append(("wrap", f"gc wrap {sh(b)} {osh(bc)}", mk_w,
+                         lambda r: f"ok {sh(r[0].shape)} {osh(r[0].cond_shape)} {sh(r[1].shape)} {osh(r[1].cond_shape)} {osh(r[2].cond_shape)}",
+                         False, dict(bshape=b, bcond=bc)))
+    jobs += vmap_jobs(tier, rng, pair_enc)
     return jobs
+
+
+def vmap_jobs(tier, rng, pair_enc):
+    """Vmap(bijection, in_axes=…, axis_size=…, in_axes_condition=…): the pytree side enters the model resolved (shapes of the array
+    leaves of unwrap(bijection); one optional axis per leaf from the real `_resolve_vmapped_axes`; whether `in_axes` contains an
+    unwrappable), everything else (XOR, inference order, get_cond_shape, shape) is the regenerated constructor."""
+    import jax.tree_util as jtu
+    from flowjax import wrappers
+    from flowjax.bijections.jax_transforms import _resolve_vmapped_axes
+    jobs = []
+    plain = B.Affine(jnp.zeros(3), jnp.ones(3))
+    batched = eqx.filter_vmap(B.Affine)(jnp.zeros((4, 3)), jnp.full((4, 3), 1.5))
+    cond_noleaf = _addcond((3,), (2,))
+    cond_leaf = B.Chain([B.Affine(jnp.zeros(3), jnp.ones(3)), _addcond((3,), (2, 5))])
+    cond_arr = B.EmbedCondition(B.Affine(jnp.zeros((4, 3)), jnp.ones((4, 3))), eqx.nn.Identity(), (2, 5))  # conditional, array leaves only
+    bijs = {"plain": plain, "batched": batched, "cond_noleaf": cond_noleaf, "cond_leaf": cond_leaf, "cond_arr": cond_arr,
+            "scalar": B.Affine(0.5, 2.0)}
+    none_tree = lambda b: jtu.tree_map(lambda _: None, wrappers.unwrap(b))
+    in_axes_opts = {
+        "None": lambda b: None, "0": lambda b: 0, "1": lambda b: 1, "-1": lambda b: -1, "-2": lambda b: -2, "2": lambda b: 2,
+        "if_array0": lambda b: eqx.if_array(0), "if_array1": lambda b: eqx.if_array(1),
+        "tree_none": none_tree,
+        "tree_wrapped": lambda b: jtu.tree_map(lambda _: 0, b),  # structure of the WRAPPED bijection: contains unwrappables for Affine
+    }
+    combos = [(bn, an, n, ca) for bn in bijs for an in in_axes_opts for n in (None, 4) for ca in (None, 0, 1, -1, -2, 2, -3, 3, -4)]
+    for bn, an, n, ca in combos:
+        bij = bijs[bn]
+        in_axes = in_axes_opts[an](bij)
+        unwrapped = wrappers.unwrap(bij)
+        leaves = jtu.tree_leaves(unwrapped)
+        if in_axes is None:
+            leaves = [l for l in leaves if hasattr(l, "shape")]  # not looked at on the axis_size path
+        elif not all(hasattr(l, "shape") for l in leaves):
+            continue  # a non-array leaf under an integer in_axes: AttributeError inside the pytree traversal, outside the model
+        if in_axes is None:
+            ia_tok = "N"
+        else:
+            has_unw = any(isinstance(l, wrappers.AbstractUnwrappable)
+                          for l in jtu.tree_leaves(in_axes, is_leaf=lambda x: isinstance(x, wrappers.AbstractUnwrappable)))
+            if has_unw:
+                axes = [None] * len(leaves)  # the constructor raises before resolving
+            else:
+                try:
+                    resolved = _resolve_vmapped_axes(unwrapped, in_axes)
+                    axes = jtu.tree_leaves(resolved, is_leaf=lambda x: x is None)
+                except Exception:  # noqa: BLE001  -- an in_axes that is not a prefix of the tree: outside the model
+                    continue
+                if len(axes) != len(leaves):
+                    continue
+            ia_tok = f"u:{1 if has_unw else 0}:" + lst(axes, lambda a: "N" if a is None else str(a))
+        line = (f"gc hvmap {sh(bij.shape)} {osh(bij.cond_shape)} {lst([l.shape for l in leaves], sh)} {ia_tok} "
+                f"{'N' if n is None else n} {'N' if ca is None else ca}")
+        nontrivial = (in_axes is None) == (n is None) or (ca is not None and ca < 0) or an in ("tree_wrapped", "tree_none", "2", "-2")
+        jobs.append(("vmap", line, lambda bij=bij, in_axes=in_axes, n=n, ca=ca: B.Vmap(bij, in_axes=in_axes, axis_size=n, in_axes_condition=ca),
+                     pair_enc, nontrivial, dict(bijection=bn, in_axes=an, axis_size=n, cond_ax=ca)))
+    return jobs
+
+
+# kinds whose constructor is also REGENERATED from the source: hand-model op line -> generated op line, and what the real object
+# must show for the generated result's extra fields
+GEN_LINE = {
+    "chain": lambda l: "gc" + l[2:], "match": lambda l: "gc" + l[2:], "merge": lambda l: "gc" + l[2:], "concat": lambda l: "gc" + l[2:],
+    "stack": lambda l: "gc" + l[2:], "partial": lambda l: "gc" + l[2:], "reshape": lambda l: "gc" + l[2:], "transformed": lambda l: "gc" + l[2:],
+    "embed": lambda l: l.replace("gc hembed", "gc embed"), "vmap": lambda l: l.replace("gc hvmap", "gc vmap"), "wrap": lambda l: l,
+}
+GEN_EXTRA = {
+    "concat": lambda b: f" {sh(b.split_idxs)} {b.axis}",
+    "stack": lambda b: f" {b.axis}",
+}
 
 
 def run_ctor_jobs(c, jobs):
     outs = vlib.run_model([j[1] for j in jobs])
-    for (kind, line, thunk, enc, nontrivial, info), model in zip(jobs, outs):
+    gjobs = [j for j in jobs if j[0] in GEN_LINE]
+    gouts = dict(zip([id(j) for j in gjobs], vlib.run_model([GEN_LINE[j[0]](j[1]) for j in gjobs])))
+    for job, model in zip(jobs, outs):
+        kind, line, thunk, enc, nontrivial, info = job
         v, r = real_ctor(thunk)
         got = enc(r) if v == "ok" else v
+        if id(job) in gouts:
+            # the constructor regenerated from the source: against the real constructor AND against the hand model
+            gen = gouts[id(job)]
+            want = got + (GEN_EXTRA[kind](r) if v == "ok" and kind in GEN_EXTRA else "")
+            c.count("ctor-generated:" + kind)
+            if gen != want:
+                c.mismatch("ctor-generated-vs-impl:" + kind, op=GEN_LINE[kind](line), generated=gen, impl=want, detail=r if v != "ok" else None,
+                           **{k: str(v_) for k, v_ in info.items()})
+            gcore = " ".join(gen.split(" ")[:len(model.split(" "))]) if gen.startswith("ok") and model.startswith("ok") else gen
+            if gcore != model:
+                c.mismatch("ctor-generated-vs-model:" + kind, op=GEN_LINE[kind](line), generated=gen, model=model)
         if kind in ("refconcat", "refstack") and v != "ok":
             got = "none"
         c.case((kind, line), bool(nontrivial), sample={"op": line, "model": model, "impl": got} if nontrivial and len(c.samples) < 10 and kind in ("concat", "stack", "partial") and got != "ok" else None)
